@@ -498,4 +498,11 @@ for _p, _l in (('C01', BITSETS_CORE), ('C19', BITSETS_CORE), ('C02', BITSETS_COR
     PROPS[_p]['units'] = PROPS[_p]['units'] + [u for u in _l if u not in PROPS[_p]['units']]
     if _l:
         PROPS[_p]['level_note'] += _BS_NOTE
+PROPS['C18']['units'] += ['bitsets.combos.shortlex', 'bitsets.MemberBits.powerset', 'bitsets.MemberBits.atoms', 'lemma.powerset.tree', 'bitsets.Meta.__init__',
+                          'bitsets.MemberBits.members', 'bitsets.integers.indexes']
+PROPS['C18']['proved_part'] += ('; intent.powerset() itself: MemberBits.powerset passes (infimum, the ascending member atoms) to combos.shortlex, which yields every subset exactly once, '
+                                'the empty set first and sizes never decreasing (deque as FIFO array, ownership invariant like Close-by-One, lemma.powerset.tree)')
+PROPS['C18']['bounded_part'] = 'the order among equal-size subsets (ties by property position) of combos.shortlex; replay'
+PROPS['C18']['level_note'] = ('powerset() is no longer assumed: every subset once and shortest first are proved from the bitsets source; the tie order among equal-size subsets '
+                              "and bin()-based helpers (indexes_optimized, count) remain assumed bitsets contracts, run-time checked on the bounded side.")
 NOT_APPLICABLE = {}
